@@ -28,9 +28,13 @@ CONSTANTS Sizes,          \* declared sizes of multipart sessions
           FixHashAfterStore,  \* TRUE: running hash advanced after S3 accepted the part (repaired); FALSE: before, so a failed-then-retried part is hashed twice (pinned tree)
           DevIgnoreCompleteErr, \* deviation: error of CompleteMultipartUpload ignored
           DevNegAck,            \* deviation: only positive partition error codes count as errors (UNKNOWN_SERVER_ERROR = -1 passes)
-          DevEmptyAck           \* deviation: a reply that names no partition counts as an acknowledgement
-VARIABLES phase, decl, parts, total, hashed, mpu, obj, s3calls, faultAt, http, final, env, ack, hist
-vars == <<phase, decl, parts, total, hashed, mpu, obj, s3calls, faultAt, http, final, env, ack, hist>>
+          DevEmptyAck,          \* deviation: a reply that names no partition counts as an acknowledgement
+          DevDupParts           \* deviation: completion list de-duplicated and sorted through a map, completeness judged by the raw length only
+VARIABLES phase, decl, parts, total, hashed, mpu, obj, s3calls, faultAt, http, final, env, ack, hist,
+          lclass     \* shape of the part list of the last completion request (pure history; kept in VIEW so that the state cover
+                     \* contains a schedule for every shape, although all rejected shapes lead to the same state otherwise)
+vars == <<phase, decl, parts, total, hashed, mpu, obj, s3calls, faultAt, http, final, env, ack, hist, lclass>>
+KeepClass == lclass' = lclass
 
 PS == 5      \* session part size = normalizeChunkSize(5 MiB)
 MIN == 5     \* minMultipartChunkSize
@@ -39,7 +43,7 @@ NoAck == 1000     \* the broker gave no code for the partition (no reply at all,
 NoEnv == [size |-> 0, sha |-> <<>>]
 
 Init == /\ phase = "idle" /\ decl = 0 /\ parts = <<>> /\ total = 0 /\ hashed = <<>> /\ mpu = "none" /\ obj = <<>>
-        /\ s3calls = 0 /\ faultAt = 0 /\ http = 0 /\ final = FALSE /\ env = NoEnv /\ ack = NoAck /\ hist = <<>>
+        /\ s3calls = 0 /\ faultAt = 0 /\ http = 0 /\ final = FALSE /\ env = NoEnv /\ ack = NoAck /\ hist = <<>> /\ lclass = "none"
 
 RECURSIVE SumLen(_)
 SumLen(s) == IF s = <<>> THEN 0 ELSE Head(s)[2] + SumLen(Tail(s))
@@ -49,7 +53,7 @@ Step(rec) == Len(hist) < MaxOps /\ hist' = Append(hist, rec)
 Fails(i) == faultAt # 0 /\ faultAt = s3calls + i     \* the i-th S3 call of this request is the injected failure
 
 \* choose which S3 API call of the schedule fails (first step of a schedule, optional)
-Arm(k) == /\ hist = <<>> /\ k \in 1..MaxFault /\ faultAt' = k /\ Step([a |-> "Arm", k |-> k])
+Arm(k) == /\ hist = <<>> /\ k \in 1..MaxFault /\ faultAt' = k /\ KeepClass /\ Step([a |-> "Arm", k |-> k])
           /\ UNCHANGED <<phase, decl, parts, total, hashed, mpu, obj, s3calls, http, final, env, ack>>
 
 \* produce the envelope record; result = <<http status, ack code>>
@@ -79,7 +83,7 @@ Single(size, reply) ==
                 /\ env' = [size |-> size, sha |-> content]
                 /\ http' = pr[1] /\ ack' = pr[2]
   /\ phase' = "closed" /\ final' = TRUE
-  /\ Step([a |-> "Single", size |-> size, reply |-> reply])
+  /\ KeepClass /\ Step([a |-> "Single", size |-> size, reply |-> reply])
   /\ UNCHANGED <<decl, parts, total, mpu, faultAt>>
 
 \* ---- multipart session ----------------------------------------------------------------------
@@ -89,12 +93,12 @@ InitUp(size) ==
   /\ IF Fails(1) THEN /\ http' = 502 /\ UNCHANGED <<phase, decl, mpu>>
                  ELSE /\ http' = 200 /\ phase' = "open" /\ decl' = size /\ mpu' = "open"
   /\ final' = FALSE
-  /\ Step([a |-> "Init", size |-> size])
+  /\ KeepClass /\ Step([a |-> "Init", size |-> size])
   /\ UNCHANGED <<parts, total, hashed, obj, faultAt, env, ack>>
 
 Part(n, len) ==
   /\ phase = "open" /\ final' = FALSE
-  /\ Step([a |-> "Part", n |-> n, len |-> len])
+  /\ KeepClass /\ Step([a |-> "Part", n |-> n, len |-> len])
   /\ UNCHANGED <<phase, decl, mpu, obj, faultAt, env, ack>>
   /\ IF n <= Len(parts) THEN http' = 200 /\ UNCHANGED <<parts, total, hashed, s3calls>>        \* already received: stored etag echoed
      ELSE IF n # Len(parts) + 1 THEN http' = 409 /\ UNCHANGED <<parts, total, hashed, s3calls>>
@@ -112,13 +116,26 @@ Listings == {<<>>} \cup {<<x>> : x \in PN} \cup {<<x, y>> : x, y \in PN} \cup {<
 Known(listed) == \A i \in DOMAIN listed : listed[i] <= Len(parts)
 Exact(listed) == Len(listed) = Len(parts) /\ Range(listed) = 1..Len(parts)
 \* does the request get as far as the S3 call / the produce?
-ReachesS3(listed) == total = decl /\ listed # <<>> /\ Known(listed) /\ (FixAllParts => Exact(listed))
+\* shape of a completion list relative to the uploaded parts
+ListClass(listed) == CASE listed = <<>> -> "empty"
+                       [] ~Known(listed) -> "unknown_part"
+                       [] Exact(listed) /\ StrictAsc(listed) -> "exact"
+                       [] Exact(listed) -> "reordered"
+                       [] Len(listed) = Len(parts) -> "repeated_and_omitted"     \* right length, one part twice, another missing
+                       [] Len(listed) < Len(parts) -> "subset"
+                       [] OTHER -> "too_long"
+RECURSIVE SortSet(_)
+SortSet(S) == IF S = {} THEN <<>> ELSE LET m == CHOOSE x \in S : \A y \in S : x <= y IN <<m>> \o SortSet(S \ {m})
+ToS3(listed) == IF DevDupParts THEN SortSet(Range(listed)) ELSE listed         \* the list handed to CompleteMultipartUpload
+ReachesS3(listed) == total = decl /\ listed # <<>> /\ Known(listed)
+                     /\ (FixAllParts => IF DevDupParts THEN Len(listed) = Len(parts) ELSE Exact(listed))
 RECURSIVE Assemble(_)
 Assemble(ls) == IF ls = <<>> THEN <<>> ELSE <<<<Head(ls), parts[Head(ls)]>>>> \o Assemble(Tail(ls))
-S3CompleteOk(listed) == mpu = "open" /\ ~Fails(1) /\ StrictAsc(listed)
+S3CompleteOk(listed) == mpu = "open" /\ ~Fails(1) /\ StrictAsc(ToS3(listed))
 Complete(listed, reply) ==
   /\ phase = "open" /\ final' = TRUE
-  /\ Step([a |-> "Complete", listed |-> listed, reply |-> reply])
+  /\ Step([a |-> "Complete", listed |-> listed, reply |-> reply, cls |-> ListClass(listed)])
+  /\ lclass' = ListClass(listed)
   /\ UNCHANGED <<decl, parts, total, hashed, faultAt>>
   /\ IF ~ReachesS3(listed)
      THEN /\ reply = "ok" /\ http' = 400
@@ -129,7 +146,7 @@ Complete(listed, reply) ==
              THEN /\ reply = "ok" /\ http' = 502 /\ UNCHANGED <<phase, mpu, obj, env, ack>>
              ELSE LET pr == Produce(reply) IN
                   /\ IF S3CompleteOk(listed)
-                     THEN obj' = Assemble(listed) /\ mpu' = "done"
+                     THEN obj' = Assemble(ToS3(listed)) /\ mpu' = "done"
                      ELSE UNCHANGED <<obj, mpu>>
                   /\ env' = [size |-> total, sha |-> hashed]
                   /\ http' = pr[1] /\ ack' = pr[2]
@@ -138,7 +155,7 @@ Complete(listed, reply) ==
 Abort ==
   /\ phase = "open" /\ phase' = "closed" /\ http' = 204 /\ final' = FALSE
   /\ mpu' = IF mpu = "open" THEN "aborted" ELSE mpu
-  /\ Step([a |-> "Abort"])
+  /\ KeepClass /\ Step([a |-> "Abort"])
   /\ UNCHANGED <<decl, parts, total, hashed, obj, s3calls, faultAt, env, ack>>
 
 Next == \/ \E k \in 1..MaxFault : Arm(k)
@@ -159,6 +176,6 @@ Numbered(i, s) == IF s = <<>> THEN <<>> ELSE <<<<i, Head(s)>>>> \o Numbered(i + 
 SessionAccounting == total = SumLen(Numbered(1, parts)) /\ total <= decl
 HashFollowsParts == (FixHashAfterStore /\ phase = "open") => hashed = Numbered(1, parts)
 
-View == <<phase, decl, parts, total, hashed, mpu, obj, s3calls, faultAt, http, final, env, ack, Len(hist)>>
+View == <<phase, decl, parts, total, hashed, mpu, obj, s3calls, faultAt, http, final, env, ack, lclass, Len(hist)>>
 EmitSched == PrintT(<<"SCHED", ToJson(hist)>>)
 ====
